@@ -593,7 +593,7 @@ class ExecMixin:
         for x in phis:
             vals[x['name']] = self.val(x['edges'][b['preds'].index(prev)], fr, st)
         env = self.loop_env(fr, st, phis, vals)
-        tag = 'keep' if back and fr.inloop.get(h) else 'init'
+        tag = 'keep' if back and fr.inloop.get(h) is not None else 'init'
         import cparse as _cp
         for n, (txt, ast) in enumerate(spec['invariant']):
             parts = self.split_conj(ast)
@@ -604,7 +604,7 @@ class ExecMixin:
         if tag == 'keep':
             if spec.get('decreases'):
                 m_new = self.ev(spec['decreases'][1], env)[0]
-                m_old = fr.inloop[h]
+                m_old = fr.inloop[h][1]
                 self.oblige(st, fr, 'dec', 'loop%d' % lp['ordinal'], And(m_new < m_old, m_old >= 0) if m_old is not None else BoolVal(True), None)
             self.path_ends.append(('loopcut', list(st.trace)))
             return None
@@ -620,9 +620,7 @@ class ExecMixin:
         env = self.loop_env(fr, st, phis, {x['name']: fr.regs[x['name']] for x in phis})
         for txt, ast in spec['invariant']:
             st.assume(self.ev_bool(ast, env))
-        fr.inloop[h] = self.ev(spec['decreases'][1], env)[0] if spec.get('decreases') else True
-        if fr.inloop[h] is True: fr.inloop[h] = None if not spec.get('decreases') else fr.inloop[h]
-        fr.inloop[h] = fr.inloop[h] if spec.get('decreases') else True
+        fr.inloop[h] = (True, self.ev(spec['decreases'][1], env)[0] if spec.get('decreases') else None)
         # continue after the phis
         return len(phis) if all(x['op'] == 'Phi' for x in b['instrs'][:len(phis)]) else self._skip_phis(b)
 
@@ -664,6 +662,19 @@ class ExecMixin:
                 elif op == 'Send':
                     keys |= {'chan.count'}
         return keys
+
+    def all_keys(self):
+        ks = set()
+        for tn, d in self.p.types.items():
+            if d.get('kind') == 'named' and self.K(tn) == 'struct' and 'netpoll' in tn:
+                ks |= self.struct_keys(tn)
+        for g in self.c.ghostfields:
+            tn, gf = g.rsplit('.', 1)
+            for full in self.p.types:
+                if self.match_type(full, tn) and self.p.desc(full).get('kind') == 'named': ks.add(self.ghost_key(full, gf))
+        for g in list(self.c.ghostmaps) + list(self.c.ghostglobals): ks.add('ghost:' + g)
+        ks |= self.keys_of('mem:uint8', 'uint8') | self.keys_of('mem:[]uint8', '[]byte')
+        return ks
 
     def keys_of(self, key, t):
         k = self.K(t)
@@ -767,6 +778,7 @@ class ExecMixin:
         """heap keys named by a modifies entry ('T.f', 'x.f', 'mem', 'mem:T', 'x.f[*]')"""
         e = entry.strip()
         if e == 'nothing': return set()
+        if e == 'anything': return set(self.all_keys())
         if e.startswith('mem'):
             et = 'uint8'
             if ':' in e: et = self.resolve_type(e.split(':', 1)[1])
